@@ -169,7 +169,49 @@ def harness(cfg, ns):
     return h
 
 
+def real_checks(tier):
+    """concrete cross-check of what the symbolic model renders ideally: units whose bounds differ only beyond the 6th significant digit
+    (hour-long recordings with millisecond time stamps) are distinct units for the checks"""
+    return [dict(kind="near-identical", name="check / soft check tell apart units that differ beyond 6 significant digits")]
+
+
+def _near_identical():
+    import pygamma_agreement as pa
+    from pygamma_agreement.alignment import UnitaryAlignment, Alignment, SoftAlignment, SetPartitionError
+    from pyannote.core import Segment
+    c = pa.Continuum()
+    u1, u2 = pa.Unit(Segment(3605.412, 3605.9), "uh"), pa.Unit(Segment(3605.414, 3605.9), "uh")
+    v1 = pa.Unit(Segment(3605.4, 3606.0), "uh")
+    for u in (u1, u2):
+        c.add("a0", u.segment, u.annotation)
+    c.add("a1", v1.segment, v1.annotation)
+    bad = []
+
+    def outcome(cls, uas):
+        try:
+            cls(uas, c).check()
+            return "ok"
+        except SetPartitionError:
+            return "rejected"
+        except Exception as ex:     # noqa: BLE001
+            return type(ex).__name__
+    full = [UnitaryAlignment([("a0", u1), ("a1", v1)]), UnitaryAlignment([("a0", u2), ("a1", None)])]
+    dropped = [UnitaryAlignment([("a0", u1), ("a1", v1)])]
+    doubled = [UnitaryAlignment([("a0", u1), ("a1", v1)]), UnitaryAlignment([("a0", u1), ("a1", None)])]
+    for cls in (Alignment, SoftAlignment):
+        for order in (full, list(reversed(full))):
+            if outcome(cls, order) != "ok":
+                bad.append(f"{cls.__name__}: valid alignment over near-identical units {outcome(cls, order)}")
+        if outcome(cls, dropped) != "rejected":
+            bad.append(f"{cls.__name__}: alignment missing one of two near-identical units {outcome(cls, dropped)}")
+        if outcome(cls, doubled) != "rejected":
+            bad.append(f"{cls.__name__}: alignment repeating one near-identical unit and missing the other {outcome(cls, doubled)}")
+    return dict(reproduced=bool(bad), detail="; ".join(bad[:3]))
+
+
 def replay(case):
+    if case.get("kind") == "near-identical":
+        return _near_identical()
     import pygamma_agreement as pa
     from pygamma_agreement.alignment import UnitaryAlignment, Alignment, SoftAlignment, SetPartitionError
     from pyannote.core import Segment
